@@ -14,7 +14,7 @@ CONFIG = dict(
                "literally and proved equal to erase-first. The model is tied to the Go code on every run by executing both on generated histories "
                "(3 channels + temp channels x 3 fronts x ids with duplicates, targeted first/middle/last removals, malformed lines) and the "
                "property predicate (an independent flat bookkeeping in the driver) is evaluated on the implementation's own observations.",
-    level_note="Trusted: Lean kernel, harness/driver line protocol and canonicalisation (tuples sorted by front), sync.Map as a linearizable map used "
+    level_note="Trusted: Lean kernel, harness/driver line protocol and canonicalisation (tuples sorted by front; tuples with an empty id list are not compared, only counted for the once-per-front flag), sync.Map as a linearizable map used "
                "from one goroutine, the JSON client serializer on [A-Za-z0-9._-] strings. The theorems are about the model; the differential run "
                "ties it to the code on sampled histories plus a bounded-exhaustive enumeration (thorough tier). Not covered: the actor transport "
                "between a back-end's PushMessageByIds and a remote front-end's sys.pushmsg (property C03), concurrent use of one channel service "
@@ -24,18 +24,18 @@ CONFIG = dict(
     driver_root="Cell2v.Driver.C16",
     audit="Audit/C16.lean",
     required_theorems=["broadcast_lists_current_members", "count_eq", "order_is_join_order", "at_most_once_per_front",
-                       "isolation", "leave_absent_is_noop", "service_is_a_map", "front_fanout", "bcast_local_delivery"],
+                       "isolation", "isolation_history", "leave_absent_is_noop", "remove_is_erase_first", "removed_or_never_added_not_listed", "service_is_a_map", "front_fanout", "bcast_local_delivery"],
     harness_pkg="./c16",
     mode="diff",
     reset_prefix="reset",
     runs={
         "quick": [dict(name="main", env={"VERIF_N": "1200"}, timeout=240),
                   dict(name="exh4", test="TestExhaustive", env={"VERIF_DEPTH": "4"}, timeout=240)],
-        "thorough": [dict(name="main", env={"VERIF_N": "6000"}, timeout=1500),
-                     dict(name="seed2", env={"VERIF_N": "3000"}, seed_offset=1000, timeout=1500),
+        "thorough": [dict(name="main", env={"VERIF_N": "20000"}, timeout=1500),
+                     dict(name="seed2", env={"VERIF_N": "10000"}, seed_offset=1000, timeout=1500),
                      dict(name="exh6", test="TestExhaustive", env={"VERIF_DEPTH": "6"}, timeout=1500)],
     },
-    trivial=r"^(ok|nil|bad-op|dl=|dl= cb=1|n=0 \| dl=)?$",
+    trivial=r"^(ok|nil|bad-op|dl=|dl= cb=1|n=0 \| once=1 dl=)?$",
     rule="op lines generated from one PRNG (VERIF_SEED): cases of 10-80 operations after `reset local=<front>` over channels a,b,c and temp "
          "channels (AllocTempChannel/FreeTempChannel), fronts f1,f2,f3, ids 1..7 plus 0 and 2^32-1; joins (a quarter of them duplicates of a "
          "listed id), leaves (two thirds aimed at the first/middle/last/random element of a real group, the rest at random incl. absent ids, "
